@@ -150,3 +150,14 @@ impl<T: ?Sized + ToSig<S>, W: ZeroCopy + Word, S: Sig, E: ShardEdge<S, 3>>
         self.get_by_sig_unaligned(T::to_sig(key.borrow(), self.seed))
     }
 }
+
+// Accessors for verification harnesses (compiled only with --cfg sux_verif)
+#[cfg(sux_verif)]
+impl<T: ?Sized + ToSig<S>, W: ZeroCopy + Word, D: BitFieldSlice<W>, S: Sig, E: ShardEdge<S, 3>>
+    VFunc<T, W, D, S, E>
+{
+    /// Returns (shard/edge logic, seed, number of keys, backing cells).
+    pub fn verif_parts(&self) -> (&E, u64, usize, &D) {
+        (&self.shard_edge, self.seed, self.num_keys, &self.data)
+    }
+}
